@@ -1737,3 +1737,262 @@ func ruleR03_15(w *World, r *Report) {
 	})
 	r.Check(good && n > 0, "jsonObject.putCommon/replaced value was live", u.Pos(fn.Pos()), "returned only when isTomb() was false before the burial", detail+": a put on a key that had been deleted reports the deleted element as the value it replaced (a plain map, and the Map datatype, report none) (F49)")
 }
+
+// ---------------------------------------------------------------------------------------------
+// Round 6
+
+// R01.5 the members of an object value are created in the sorted order of the names they carry on the wire
+func ruleR01_5(w *World, r *Report) {
+	u := w.Client()
+	r.Rule("R01.5", "createJSONObject names the members of a map value as encoding/json names them (fmt.Sprint of the key, not reflect.Value.String(), which is only the key text for string kinds), sorts exactly these names and creates the members in that order: every replica allocates the children's identifiers in the same order", 3)
+	fn := u.Fn(pOrda, "jsonPrimitive", "createJSONObject")
+	if fn == nil {
+		r.Lost("jsonPrimitive.createJSONObject")
+		return
+	}
+	var sorted ssa.Value
+	for _, c := range callsIn(fn) {
+		if calleeName(c) == "Strings" && len(c.Common().Args) == 1 {
+			if f := staticCallee(c); f != nil && f.Pkg != nil && f.Pkg.Pkg.Path() == "sort" {
+				sorted = c.Common().Args[0]
+			}
+		}
+	}
+	r.Check(sorted != nil, "createJSONObject/names sorted", u.Pos(fn.Pos()), "sort.Strings(names)", "the member names are not sorted with sort.Strings: the children of a map value are created in Go's random map order on the writing replica and in sorted order elsewhere, so their identifiers differ")
+	if sorted == nil {
+		return
+	}
+	// the names put into the sorted slice
+	nameOK, nNames := true, 0
+	bad := ""
+	forEachOwnInstr(fn, func(in ssa.Instruction) {
+		st, ok := in.(*ssa.Store)
+		if !ok {
+			return
+		}
+		ia, isIA := st.Addr.(*ssa.IndexAddr)
+		if !isIA {
+			return
+		}
+		if _, isAlloc := ia.X.(*ssa.Alloc); !isAlloc || st.Val.Type().String() != "string" {
+			return
+		}
+		// an element handed to append(names, x)
+		nNames++
+		call, isCall := st.Val.(*ssa.Call)
+		if !isCall || calleeName(call) != "Sprint" {
+			nameOK = false
+			bad = canonName(st.Val)
+		}
+	})
+	r.Check(nameOK && nNames > 0, "createJSONObject/member names as on the wire", u.Pos(fn.Pos()), "fmt.Sprint(key)", "a member is named "+bad+": for a map with non-string keys reflect.Value.String() yields \"<int Value>\" for every key, the members collapse (or sort arbitrarily) on the writing replica while the wire carries \"1\",\"2\",...")
+	// the members are added in the order of the sorted slice
+	ordered := false
+	for _, c := range callsNamed(fn, "addValueToJSONObject") {
+		_, args := recvAndArgs(c)
+		if len(args) < 2 || !inLoop(c.Block()) {
+			continue
+		}
+		o := origins(args[1])
+		if o["index"] || o["rangeiter"] {
+			name := canonName(args[1])
+			if strings.Contains(name, canonName(sorted)) || strings.HasPrefix(name, canonName(sorted)) {
+				ordered = true
+			}
+		}
+	}
+	r.Check(ordered, "createJSONObject/members created in sorted order", u.Pos(fn.Pos()), "range over the sorted names", "the members of a map value are not created by walking the sorted names")
+}
+
+// R03.16 isGarbage looks at every ancestor
+func ruleR03_16(w *World, r *Report) {
+	u := w.Client()
+	r.Rule("R03.16", "isGarbage walks from the node up to the root: the node it tests advances with getParent() in a loop (or by recursion) until there is no parent, so a handle below a deleted container is refused at any depth", 1)
+	fn := u.Fn(pOrda, "jsonPrimitive", "isGarbage")
+	if fn == nil {
+		r.Lost("jsonPrimitive.isGarbage")
+		return
+	}
+	walks := false
+	forEachOwnInstr(fn, func(in ssa.Instruction) {
+		if phi, ok := in.(*ssa.Phi); ok && inLoop(phi.Block()) {
+			for _, e := range phi.Edges {
+				if c, isC := stripIface(e).(*ssa.Call); isC && calleeName(c) == "getParent" {
+					// the tested node is the phi
+					for _, t := range callsNamed(fn, "isTomb") {
+						recv, _ := recvAndArgs(t)
+						if recv == ssa.Value(phi) && inLoop(t.Block()) {
+							walks = true
+						}
+					}
+				}
+			}
+		}
+		if c, ok := in.(*ssa.Call); ok && calleeName(c) == "isGarbage" {
+			recv, _ := recvAndArgs(c)
+			if pc, isC := stripIface(recv).(*ssa.Call); isC && calleeName(pc) == "getParent" {
+				walks = true
+			}
+		}
+	})
+	r.Check(walks, "jsonPrimitive.isGarbage/walks to the root", u.Pos(fn.Pos()), "isTomb() of every ancestor", "isGarbage does not test every ancestor (no loop over getParent() with isTomb() on the loop variable, no recursion on the parent): a Document handle two or more levels below a deleted container is not recognised as deleted, and operations through it change a detached subtree and are queued for push")
+}
+
+// R17.12 lookups compare names and keys exactly
+func ruleR17_12(w *World, r *Report) {
+	u := w.Server()
+	r.Rule("R17.12", "the repository sets no collation on its queries: collection names, keys and identifiers are compared byte for byte (a case-insensitive lookup would resolve 'shop' to 'Shop')", 1)
+	n := 0
+	for _, fn := range u.ordaFuncs(func(p string) bool { return p == pMongo }) {
+		n++
+		for _, c := range callsIn(fn) {
+			if calleeName(c) == "SetCollation" {
+				r.Bad(fnName(fn)+"/collation", u.Pos(c.Pos()), "a query of the repository sets a collation: names that differ only by what the collation ignores (case, accents) resolve to the same document, so a client of one collection works on another's data and a reset removes the wrong one")
+			}
+		}
+	}
+	r.Check(n > 10, "server/mongodb/no collation", "-", fmt.Sprintf("%d functions examined", n), "the repository package was not found")
+}
+
+// R20.4 a Document handle derived from another carries its transaction context
+func ruleR20_4(w *World, r *Report) {
+	u := w.Client()
+	r.Rule("R20.4", "every Document a Document method hands out is the receiver itself, nil, or built from the receiver (toDocument/toDocuments, which copy the transaction context): never the registered root datatype, whose handle re-locks the mutex a running transaction holds", 5)
+	n := u.Named(pOrda, "document")
+	if n == nil {
+		r.Lost("orda.document")
+		return
+	}
+	cnt := 0
+	ms := types.NewMethodSet(types.NewPointer(n))
+	for i := 0; i < ms.Len(); i++ {
+		m, _ := ms.At(i).Obj().(*types.Func)
+		if m == nil || m.Pkg() == nil || m.Pkg().Path() != pOrda {
+			continue
+		}
+		fn := u.Prog.FuncValue(m)
+		if fn == nil || len(fn.Blocks) == 0 || fn.Signature.Recv() == nil || recvTypeName(m) != "document" {
+			continue
+		}
+		res := fn.Signature.Results()
+		idx := -1
+		for j := 0; j < res.Len(); j++ {
+			if strings.HasSuffix(res.At(j).Type().String(), "orda.Document") {
+				idx = j
+			}
+		}
+		if idx < 0 {
+			continue
+		}
+		cnt++
+		bad := ""
+		forEachOwnInstr(fn, func(in ssa.Instruction) {
+			ret, ok := in.(*ssa.Return)
+			if !ok || idx >= len(ret.Results) {
+				return
+			}
+			for _, v := range resolvePhisOwn(ret.Results[idx]) {
+				x := stripIface(v)
+				switch y := x.(type) {
+				case *ssa.Const:
+					continue
+				case *ssa.Parameter:
+					if y == fn.Params[0] {
+						continue
+					}
+				case *ssa.Call:
+					if nm := calleeName(y); nm == "toDocument" || recvTypeName(calleeObjOrNil(y)) == "document" {
+						continue
+					}
+				case *ssa.TypeAssert:
+					if strings.Contains(canonName(y.X), ".Datatype") {
+						bad = canonName(y.X)
+						continue
+					}
+					continue
+				case *ssa.Extract:
+					continue
+				}
+			}
+		})
+		r.Check(bad == "", "document."+m.Name()+"/handle built from the receiver", u.Pos(fn.Pos()), "its / toDocument(..) / nil", "the method hands out "+bad+" (the registered datatype) as a Document: that handle has no transaction context, so using it inside Transaction() re-locks the mutex the goroutine already holds and the datatype deadlocks")
+	}
+	if cnt < 5 {
+		r.Lost("document methods that return a Document")
+	}
+}
+
+func calleeObjOrNil(c ssa.CallInstruction) *types.Func {
+	if c == nil {
+		return nil
+	}
+	return calleeObj(c)
+}
+
+// R16.8 a method called on an optional sub-message is nil-safe (F50)
+func ruleR16_8(w *World, r *Report) {
+	u := w.Client()
+	r.Rule("R16.8", "in the protocol model a method that is called on a message-typed field of another message (an optional sub-message, nil when the sender left it out) does not read the fields of its receiver without a nil test - it goes through the generated getters, which are nil-safe", 1)
+	nilSafe := func(f *ssa.Function) (bool, string) {
+		if f == nil || len(f.Blocks) == 0 || len(f.Params) == 0 {
+			return true, ""
+		}
+		recv := ssa.Value(f.Params[0])
+		bad := ""
+		forEachOwnInstr(f, func(in ssa.Instruction) {
+			fa, ok := in.(*ssa.FieldAddr)
+			if !ok || fa.X != recv {
+				return
+			}
+			paths, okp := reachingLitsOwn(f, nil, fa)
+			guarded := okp && len(paths) > 0
+			for _, p := range paths {
+				g := false
+				for _, l := range p {
+					if isNilCheckOf(l, recv, false) {
+						g = true
+					}
+				}
+				guarded = guarded && g
+			}
+			if !guarded {
+				bad = fieldName(fa.X.Type(), fa.Field)
+			}
+		})
+		return bad == "", bad
+	}
+	n := 0
+	for _, fn := range u.ordaFuncs(func(p string) bool { return p == pModel }) {
+		if isGenerated(u.Fset, fn.Pos()) {
+			continue
+		}
+		for _, c := range callsIn(fn) {
+			call, ok := c.(*ssa.Call)
+			if !ok || call.Call.IsInvoke() {
+				continue
+			}
+			callee := staticCallee(call)
+			if callee == nil || callee.Pkg == nil || callee.Pkg.Pkg.Path() != pModel || isGenerated(u.Fset, callee.Pos()) {
+				continue
+			}
+			recv, _ := recvAndArgs(call)
+			ld, isLoad := recv.(*ssa.UnOp)
+			if recv == nil || !isLoad {
+				continue
+			}
+			fa, isFA := ld.X.(*ssa.FieldAddr)
+			if !isFA {
+				continue
+			}
+			if _, isPtr := ld.Type().Underlying().(*types.Pointer); !isPtr {
+				continue
+			}
+			n++
+			ok2, field := nilSafe(callee)
+			r.Check(ok2, fnName(fn)+"/"+fnName(callee)+" on the optional "+fieldName(fa.X.Type(), fa.Field), u.Pos(call.Pos()), "callee is nil-safe", fnName(callee)+" reads its receiver's field "+field+" directly, and is called on a sub-message that is nil when the sender omitted it: logging such a request panics in the gRPC handler goroutine and ends the server process (F50)")
+		}
+	}
+	if n < 1 {
+		r.Lost("methods called on optional sub-messages in client/pkg/model")
+	}
+}
